@@ -25,6 +25,7 @@ ASSUMPTIONS = [
 LEAVES = [("T", 0), ("T", 1), ("T", 2), ("E", 0, 1), ("E", 1, 1), ("E", 2, 1), ("E", 1, 0), ("E", 2, 0), ("P", 1, 1), ("P", 1, 0), ("P", 0, 1),
           ("E", 0, 0), ("P", 0, 0)]
 LEAVES_S = [("T", 0), ("T", 1), ("E", 0, 1), ("E", 1, 1), ("E", 1, 0), ("P", 1, 1), ("P", 1, 0), ("E", 0, 0)]
+DUP = ("DUP",)      # the first leaf's event object once more (an event shared by two operands / two sub-conditions)
 ROOTS = [("all", 0), ("any", 0), ("all", 1), ("any", 1), ("all", 2), ("any", 2), ("and",), ("or",), ("all", 3), ("any", 3)]
 NESTED = [("all", 2), ("any", 2), ("and",), ("or",), ("any", 0), ("all", 1)]
 
@@ -42,6 +43,11 @@ def plan(tier, seed):
                 if not quick and ROOTS[ri] in (("all", 2), ("any", 2)) and c == 0 and order == 0:
                     # deeper trees (nesting depth 3) on the reduced leaf menu
                     cfgs.append(dict(root=ri, c=c, order=order, depth=3, maxleaves=3, foreign=0, small=1))
+    for ri in (4, 5, 6, 7):
+        for c in (0, 1):
+            cfgs.append(dict(root=ri, c=c, order=0, depth=2, maxleaves=3 if quick else 4, foreign=0, dup=1, small=1))
+    cfgs.append(dict(root=5, c=0, order=0, depth=1, maxleaves=2, foreign=2))
+    cfgs.append(dict(root=4, c=0, order=0, depth=1, maxleaves=2, foreign=2))
     cfgs.append(dict(root=4, c=0, order=0, depth=1, maxleaves=2, foreign=1))
     cfgs.append(dict(root=7, c=0, order=0, depth=1, maxleaves=2, foreign=1))
     cfgs.append(dict(root=9, c=0, order=0, depth=1, maxleaves=3, foreign=1))
@@ -84,11 +90,21 @@ def execute(ch, cfg):
             menu = LEAVES if depth == 1 and not cfg.get("small") else LEAVES_S
             nested_ok = depth < cfg["depth"] and budget[0] >= 2
             opts = list(menu) + (NESTED if nested_ok else [])
+            if cfg.get("dup") and leaves:
+                opts = opts + [DUP]
             c = ch.choose(len(opts), lambda c: "operand %s" % (opts[c],), free=True)
             spec = opts[c]
+            if spec == DUP:
+                n.kind = "leaf"
+                n.spec = leaves[0].spec
+                n.alias = leaves[0]
+                budget[0] -= 1
+                leaves.append(n)
+                return n
             if c < len(menu):
                 n.kind = "leaf"
                 n.spec = spec
+                n.alias = None
                 budget[0] -= 1
                 leaves.append(n)
                 return n
@@ -120,6 +136,10 @@ def execute(ch, cfg):
         def cb(ev):
             n.processed_at = len(log)
             log.append((len(log), env.now, "leaf", n))
+            for m in leaves:
+                if m.alias is n:
+                    m.processed_at = len(log)
+                    log.append((len(log), env.now, "leaf", m))      # the same event seen through its second operand slot
         return cb
 
     def helper(n):
@@ -149,6 +169,9 @@ def execute(ch, cfg):
             n.ok = n.spec[0] == "T" or bool(n.spec[2])
             n.processed_at = None
             n.caught = False
+            if n.alias is not None:
+                n.val = n.alias.val
+                continue
             if n.spec[0] == "E":
                 n.ev = env.event()
                 n.ev.callbacks.append(probe(n))
@@ -159,10 +182,18 @@ def execute(ch, cfg):
             if not n.ok and catcher:
                 env.process(catch(n))
                 n.caught = True
+        for n in leaves:
+            if n.alias is not None and n.alias.spec[0] != "T":
+                n.ev = n.alias.ev
+                n.caught = n.alias.caught
     other = Environment()
 
     def construct(n):
         if n.kind == "leaf":
+            if n.alias is not None:
+                n.ev = n.alias.ev
+                n.caught = n.alias.caught
+                return n.ev
             if n.spec[0] == "T":
                 n.ev = env.timeout(n.spec[1], value=n.val)
                 n.ev.callbacks.append(probe(n))
@@ -170,6 +201,10 @@ def execute(ch, cfg):
         evs = [construct(o) for o in n.ops]
         if foreign and n is root and evs:
             evs[-1] = other.event()
+            if foreign == 2:
+                # an event of another environment that has already been processed there
+                evs[-1].succeed("foreign")
+                other.run()
         s = n.spec
         if s[0] == "all":
             n.ev = env.all_of(evs)
@@ -254,10 +289,10 @@ def execute(ch, cfg):
         args = ((o.val,) if o.kind == "leaf" else o.ref[1]) if failed else None
         if c.ref is not None:
             # completes after c was decided: changes nothing; its failure is then an ordinary unhandled failure
-            if failed and not (o.kind == "leaf" and o.caught):
-                musts.append((pos, now, args))
+            if failed and not (o.kind == "leaf" and (o.caught or o.alias is not None or getattr(o, "absorbed_elsewhere", False))):
+                musts.append((pos, now, args))      # (a second operand slot of one and the same event is not a second failure)
             return
-        if failed and not (o.kind == "leaf" and o.caught):
+        if failed and not (o.kind == "leaf" and (o.caught or o.alias is not None)):
             a = c.parent
             while a is not None:
                 if a.ref is not None:
@@ -315,9 +350,13 @@ def execute(ch, cfg):
             continue
         if built is None or idx < built:
             # processed before any condition exists
-            if not n.ok and not n.caught:
+            if not n.ok and not n.caught and n.alias is None:
                 musts.append((idx, now, (n.val,)))
             continue
+        if n.alias is None:
+            # an event that fills several operand slots fails once: it is handled if any of its slots feeds an unmet condition
+            group = [n] + [m for m in leaves if m.alias is n]
+            n.absorbed_elsewhere = len(group) > 1 and any(g.parent is not None and g.parent.ref is None for g in group)
         if n.parent is not None:
             decide(n.parent, n, idx, now)
     # ---- when -------------------------------------------------------------------------------------
